@@ -178,7 +178,7 @@ def chains_and_guards(ctx) -> None:
 # ---- R-TXN ------------------------------------------------------------------------------------------
 def may_raise_names(prog: core.Program) -> set[str]:
     """Method/function names of forml.flow._graph that may raise TopologyError (transitively, name-based)."""
-    fns = list(prog.functions([PORT, ATOMIC]))
+    fns = list(prog.functions([PORT, ATOMIC, SPAN]))
     direct = set()
     calls = {}
     for fn in fns:
@@ -212,7 +212,7 @@ def r_txn(ctx) -> None:
     if not {'publish', 'republish', '_publish', '_collapse', 'Subscription', registration_function(prog).name, 'train'} <= mr:
         raise core.AnalysisError(f'may-raise summary incomplete: {sorted(mr)}')
     n = 0
-    for fn in prog.functions([PORT, ATOMIC]):
+    for fn in prog.functions([PORT, ATOMIC, SPAN]):
         graph = cfg.CFG(fn.node)
         stmts = [s for s in graph.statements() if not isinstance(s, (ast.Try, ast.ExceptHandler, ast.If, ast.For, ast.While, ast.With)) or isinstance(s, (ast.If, ast.For, ast.While))]
         muts, risky = [], []
